@@ -17,8 +17,8 @@ def plan(ctx):
     if ctx.tier == "quick":
         return {"sfs": [1, 2, 5, 9, 10], "seeds": [42, s2], "reps": 2, "threads": 4, "parquet_sfs": [1, 5, 9],
                 "conc_sfs": [1, 2, 5], "keysets_max": 2, "count_sfs": list(range(1, 51))}
-    return {"sfs": [1, 2, 3, 5, 9, 10, 18, 25, 50], "seeds": [42, s2, 7], "reps": 3, "threads": 4,
-            "parquet_sfs": [1, 2, 5, 9, 10, 50], "conc_sfs": [1, 2, 5, 10, 50], "keysets_max": 5,
+    return {"sfs": [1, 2, 3, 4, 5, 7, 9, 10, 18, 25, 36, 50], "seeds": [42, s2, 7, 2**31 - 1], "reps": 3, "threads": 4,
+            "parquet_sfs": [1, 2, 5, 9, 10, 25, 50], "conc_sfs": [1, 2, 5, 10, 36, 50], "keysets_max": 5,
             "count_sfs": list(range(1, 51))}
 
 
